@@ -556,12 +556,12 @@ func runC10(c *ev.Ctx) {
 			switch {
 			case strings.Contains(stderr, "all goroutines are asleep"):
 				cls = "deadlock"
-			case err != nil && strings.HasPrefix(err.Error(), "watchdog") && !strings.Contains(stderr, "rowSync).waitFor") && !strings.Contains(stderr, "sync.(*Cond).Wait"):
+			case err != nil && strings.HasPrefix(err.Error(), "watchdog") && !parkedForMinutes(stderr):
 				// the wall-clock watchdog alone is never a verdict: without goroutines parked in the
 				// row synchronisation this is a slow machine, not a lost wake-up
 				c.Inconclusive("watchdog-fired-without-parked-row-waiters:" + what)
 				return
-			case strings.Contains(stderr, "rowSync).waitFor") || strings.Contains(stderr, "sync.(*Cond).Wait"):
+			case parkedForMinutes(stderr):
 				cls = "deadlock"
 			case strings.Contains(stderr, "fatal error: concurrent map") || strings.Contains(stderr, "fatal error:"):
 				cls = "fatal-error"
@@ -578,7 +578,7 @@ func runC10(c *ev.Ctx) {
 		wg.Add(1)
 		go func(s int) {
 			defer wg.Done()
-			msgs, se, err := run(exe, []string{"GOMAXPROCS=8"}, time.Duration(c.N(120, 2400))*time.Second, "perturb", strconv.Itoa(s), strconv.Itoa(nsh))
+			msgs, se, err := run(exe, []string{"GOMAXPROCS=8"}, time.Duration(c.N(200, 2400))*time.Second, "perturb", strconv.Itoa(s), strconv.Itoa(nsh))
 			handle("perturb", msgs, se, err)
 		}(s)
 	}
@@ -651,3 +651,10 @@ func runC10(c *ev.Ctx) {
 	c.Sample(map[string]any{"perturbation_policies": []string{"yield p=1/4", "sleep 1-200us at waiters.Add / before cond.Wait / after done.Store", "starve first worker", "delay waiter + yield before Broadcast", "yield at every MB boundary"},
 		"example_trace_rule": "MBBegin(x,y) requires an earlier MBEnd(min(x+1,mbW-1), y-1)"})
 }
+
+var parkedRE = regexp.MustCompile(`goroutine \d+ \[sync\.Cond\.Wait, \d+ minutes\]:\n(?:.*\n){0,12}?.*rowSync\)\.waitFor`)
+
+// parkedForMinutes: the QUIT dump shows a goroutine that has been parked in the row wait for at least a
+// minute (the runtime prints the wait time). A live encode never waits that long for a neighbour row, so
+// this - not the wall-clock watchdog itself - is what makes a hung child a lost wake-up.
+func parkedForMinutes(dump string) bool { return parkedRE.MatchString(dump) }
